@@ -66,6 +66,8 @@ pub struct Ex<const N: usize> {
     pub moved_in: Vec<u32>,
     pub allocs: u32,
     pub window_panicked: bool,
+    /// a call returned normally although its documented panic condition held (this step)
+    pub spec_returned: bool,
     /// ids of destroyed elements, for the stale-dead garbage pattern
     pub dead_pool: Vec<[u8; 16]>,
     pub run_family: Option<FaultFamily>,
@@ -112,6 +114,7 @@ impl<const N: usize> Ex<N> {
             moved_in: Vec::new(),
             allocs: 0,
             window_panicked: false,
+            spec_returned: false,
             dead_pool: Vec::new(),
             run_family: None,
         }
@@ -180,9 +183,13 @@ impl<const N: usize> Ex<N> {
         match r {
             Ok(v) => {
                 if expect_panic {
-                    self.fail(cls::PANIC_SPEC | own, "call returned normally although the documented panic condition holds".into());
-                    // value dropped here (outside any window)
-                    drop(v);
+                    // drop what was returned (a drain / iterator over a range that should have
+                    // been rejected) first: what its destructor does to element ownership is
+                    // part of the same failure (fail() merges the hook violations)
+                    let r = window(move || drop(v));
+                    let also = if r.is_err() { " [dropping the returned value panicked]" } else { "" };
+                    self.spec_returned = true;
+                    self.fail(cls::PANIC_SPEC | own, format!("call returned normally although the documented panic condition holds{also}"));
                     None
                 } else {
                     Some(v)
